@@ -11,17 +11,27 @@ type ArrayPattern struct {
 }
 
 func NewArrayPattern(elements ...FallbackPattern) ArrayPattern {
+	// Like the array literal, the pattern has no trailing holes.
+	for len(elements) > 0 && elements[len(elements)-1].pattern == nil {
+		elements = elements[:len(elements)-1]
+	}
 	return ArrayPattern{elements}
 }
 
 func (p ArrayPattern) Bind(ctx context.Context, local Scope, value Value) (context.Context, Scope, error) {
-	// The pattern read as an expression builds a dense array starting at index
-	// 0, so that is all it matches.
+	// The pattern read as an expression builds an array starting at index 0
+	// with holes exactly where the pattern has them, so that is all it matches.
+	holes := 0
+	for _, item := range p.items {
+		if item.pattern == nil {
+			holes++
+		}
+	}
 	var values []Value
 	switch v := value.(type) {
 	case EmptySet:
 	case Array:
-		if v.offset != 0 || v.count != len(v.values) {
+		if v.offset != 0 || v.count != len(v.values)-holes {
 			return ctx, EmptyScope, fmt.Errorf("array %s with an offset or holes does not match array pattern %s", v, p)
 		}
 		values = v.values
@@ -57,15 +67,30 @@ func (p ArrayPattern) Bind(ctx context.Context, local Scope, value Value) (conte
 	result := EmptyScope
 	pos := 0
 	for i, item := range p.items {
+		if item.pattern == nil {
+			if pos >= len(values) || values[pos] != nil {
+				return ctx, EmptyScope, fmt.Errorf("array %s does not match sparse array pattern %s", value, p)
+			}
+			pos++
+			continue
+		}
 		var elem Value
 		switch {
 		case i == rest:
 			n := len(values) - fixed
+			for _, v := range values[pos : pos+n] {
+				if v == nil {
+					return ctx, EmptyScope, fmt.Errorf("array %s does not match sparse array pattern %s", value, p)
+				}
+			}
 			elem = NewArray(values[pos : pos+n]...)
 			pos += n
 		case pos < len(values):
 			elem = values[pos]
 			pos++
+			if elem == nil {
+				return ctx, EmptyScope, fmt.Errorf("array %s does not match sparse array pattern %s", value, p)
+			}
 		case item.fallback != nil:
 			var err error
 			elem, err = item.fallback.Eval(ctx, local)
@@ -105,9 +130,11 @@ func (p ArrayPattern) String() string {
 }
 
 func (p ArrayPattern) Bindings() []string {
-	bindings := make([]string, len(p.items))
-	for i, v := range p.items {
-		bindings[i] = v.String()
+	bindings := make([]string, 0, len(p.items))
+	for _, v := range p.items {
+		if v.pattern != nil {
+			bindings = append(bindings, v.String())
+		}
 	}
 	return bindings
 }
